@@ -169,17 +169,20 @@ def run(ctx):
     # exclusivity of the lock: the lock file is created with mode 'x' (fails if it exists) and the pack is opened inside that with-block
     lk = prog.fn('container:Container.lock_pack')
     lock_open = pack_open = None
+    same_with_order = False
     for n in walk_local(lk.node):
         if isinstance(n, ast.With):
-            for it in n.items:
+            for it_i, it in enumerate(n.items):
                 c = it.context_expr
                 if isinstance(c, ast.Call):
                     hk = K.kind(c, K.top_frame(lk))
                     hk = next((a for a in alts(hk) if a and a[0] == 'handle'), hk)
                     if hk[0] == 'handle' and is_lock_path(K, hk[1]):
-                        lock_open = (n, hk[2])
+                        lock_open = (n, hk[2], it_i)
                     elif hk[0] == 'handle' and 'packs' in areas(K, hk[1]):
                         pack_open = n
+                        if lock_open and lock_open[0] is n and lock_open[2] < it_i:
+                            same_with_order = True  # `with open(lock, 'x'), open(pack, 'ab') as h:` -- items are entered left to right
     nested = False
     if lock_open and pack_open:
         q = getattr(pack_open, '_parent', None)
@@ -187,7 +190,7 @@ def run(ctx):
             if q is lock_open[0]:
                 nested = True
             q = getattr(q, '_parent', None)
-    if lock_open and lock_open[1] == 'x' and nested:
+    if lock_open and lock_open[1] == 'x' and (nested or same_with_order):
         chk.ok(R1, lk.qualname, "with open(lock_file, 'x'): with open(pack_file, 'ab')", detail='exclusive creation of the lock file encloses the append handle: one writer per pack')
     else:
         chk.bad(R1, lk.qualname, f"lock file mode {lock_open[1] if lock_open else None!r}", "the lock file is not created exclusively (mode 'x') around the append handle: two packers could append to the same pack "
